@@ -33,7 +33,7 @@ CLAIMED = {
             "DESIGN.md §4 C05"),
     "C06": ("exploration",
             "metamorphic PBT: generated images x generated sequences of region requests; every region render vs the same rectangle of the first full render (1e-6), final full render bit-identical",
-            "Generated-input search over images (lossless Modular incl. squeeze/palette/multi-group/orientation, multi-frame blending with crops and patches; VarDCT shapes with filters/upsampling through the VarDCT reference writer) and over request sequences; the project's own crop-test statement is the oracle.",
+            "Generated-input search over images (lossless Modular incl. squeeze/palette/multi-group/orientation, multi-frame blending with crops and patches; VarDCT with restoration filters, upsampling, extra channels, noise, splines, patches and LF frames through the VarDCT reference writer) and over request sequences; the project's own crop-test statement is the oracle.",
             "Trusted: the first full render is the reference (self-consistency relation, not absolute correctness; C03/C05 pin absolute values for Modular).",
             "DESIGN.md §4 C06"),
     "C07": ("exploration",
@@ -49,7 +49,7 @@ CLAIMED = {
     "C09": ("exploration",
             "metamorphic PBT: generated valid files x generated chunkings (structure-boundary biased) fed through the incremental API vs whole-buffer read; field-wise and sample-wise equality",
             "Generated-input search over valid files (bare/container, split jxlp, aux boxes, multi-section frames, permuted TOCs) and over chunkings biased to structure boundaries; the incremental decoder must report exactly what the one-shot decoder reports, including bit-identical samples.",
-            "Trusted: the feeding driver implements the documented contract (unconsumed bytes re-offered); files come from the jxlref generators (currently single-frame Modular images; multi-frame/VarDCT corpora are added as their writers land).",
+            "Trusted: the feeding driver implements the documented contract (unconsumed bytes re-offered); files come from the unified jxlref corpus (single-frame Modular, multi-frame Modular with blending and patches, VarDCT incl. noise, splines, patches, LF frames, upsampling, extra channels).",
             "DESIGN.md §4 C09"),
     "C10": ("exploration",
             "model-based PBT: generated box layouts x chunkings vs expected event list (proptest over choice sequences, shrinking)",
